@@ -372,10 +372,17 @@ func Main(o Options) int {
 			out := filepath.Join(tmp, fmt.Sprintf("res%d.json", i))
 			logf := filepath.Join(tmp, fmt.Sprintf("log%d.txt", i))
 			jb, _ := json.Marshal(j)
-			cmd := exec.Command(o.Self, "worker", string(jb), out)
+			bin := o.Self
+			env := append(os.Environ(), "GOMAXPROCS=2")
+			if strings.HasPrefix(j.Scenario, "race") {
+				// the race-detector build (made by ./check for C19 thorough); reports go to a log file
+				bin = filepath.Join(o.VerifDir, ".bin", "verif-race")
+				env = append(os.Environ(), "GOMAXPROCS=8", "GORACE=halt_on_error=0 log_path="+filepath.Join(tmp, fmt.Sprintf("race%d", i)), "VERIF_RACE_LOG="+filepath.Join(tmp, fmt.Sprintf("race%d", i)))
+			}
+			cmd := exec.Command(bin, "worker", string(jb), out)
 			lf, _ := os.Create(logf)
 			cmd.Stdout, cmd.Stderr = lf, lf
-			cmd.Env = append(os.Environ(), "GOMAXPROCS=2")
+			cmd.Env = env
 			done := make(chan error, 1)
 			if err := cmd.Start(); err != nil {
 				results[i] = &Result{Job: j, Inconclusive: "worker start: " + err.Error()}
